@@ -7,10 +7,12 @@
     node-level gate in the running state followed by the allocate handler; a
     refusal leaves the state unchanged) or [Release t] (deallocate handler).
     Events add Statement.Commit on top: [CommitOk], [BindFail t].
+    [load_init] is the session-open pass (updateQueuesCurrentResourceUsage)
+    that builds the first state of a cycle from the snapshot's pods.
     [charged np qs led q r] is the ground truth: the sum over the ledger
     entries in the subtree of [q] (non-preemptible ones only when [np]). *)
 From Coq Require Import List ZArith QArith.
-From KaiV Require Import Model.Capacity Model.CapacitySpec Proofs.Capacity.
+From KaiV Require Import Model.Status Model.Capacity Model.CapacitySpec Proofs.Capacity Proofs.CapacitySnapshot.
 Import ListNotations.
 Open Scope Q_scope.
 
@@ -197,3 +199,77 @@ Theorem C08_nonvacuous :
   alloc_handler 3 (s_queues w_state) 9 true rq_zero = Done (s_queues w_state).
 Proof. exact nonvacuous. Qed.
 Print Assumptions C08_nonvacuous.
+
+(** Session open. Every scheduling cycle starts from the state that
+    updateQueuesCurrentResourceUsage ([load_init]) builds from the snapshot: the
+    queue forest with all counters at 0 ([fresh]) and the pods of all jobs, each
+    in whatever status the snapshot gave it. For every forest and every list of
+    pods in any statuses the seeding is exact: the tasks charged are exactly the
+    pods whose status is in the allocated class (Allocated, Binding, Bound,
+    Running: [allocated_status], equal to the running code's
+    pod_status.AllocatedStatus by Proofs/StatusTables.v), in particular a pod
+    whose bind request is still in flight; Allocated and AllocatedNotPreemptible
+    of every queue equal the sums over exactly those pods in its subtree
+    ([counters_exact] for that ledger); ids, parents, limits and deserved
+    quotas are untouched and the forest stays a forest. These are the
+    hypotheses of the run theorems above, which therefore apply to every cycle
+    whatever happened in earlier ones. *)
+Theorem C08_snapshot_seeding_exact :
+  forall (fuel : nat) (qs : list queue) (ps : list spod) (s : state),
+    wf_forest qs = true -> fresh qs ->
+    load_init fuel {| s_queues := qs; s_ledger := [] |} ps = Done s ->
+    s_ledger s = allocated_entries ps /\
+    counters_exact s /\
+    wf_forest (s_queues s) = true /\
+    map shape (s_queues s) = map shape qs /\
+    ((forall p, In p ps -> allocated_status (sp_status p) = true -> rq_nonneg (sp_accepted p) = true) ->
+     ledger_nonneg s = true).
+Proof. exact snapshot_seeding_exact. Qed.
+Print Assumptions C08_snapshot_seeding_exact.
+
+(** The same from any consistent state (pods loaded on top of tasks already charged). *)
+Theorem C08_snapshot_seeding_preserves :
+  forall (fuel : nat) (s0 s : state) (ps : list spod),
+    wf_forest (s_queues s0) = true -> counters_exact s0 ->
+    load_init fuel s0 ps = Done s ->
+    s_ledger s = allocated_entries ps ++ s_ledger s0 /\ counters_exact s /\
+    wf_forest (s_queues s) = true /\ map shape (s_queues s) = map shape (s_queues s0).
+Proof. exact snapshot_seeding_preserves. Qed.
+Print Assumptions C08_snapshot_seeding_preserves.
+
+(** The pass terminates (with the fuel the correspondence check uses) on every forest. *)
+Theorem C08_snapshot_seeding_total :
+  forall (qs : list queue) (ps : list spod),
+    wf_forest qs = true -> fresh qs ->
+    exists s, load_init (default_fuel qs) {| s_queues := qs; s_ledger := [] |} ps = Done s.
+Proof. exact snapshot_seeding_total. Qed.
+Print Assumptions C08_snapshot_seeding_total.
+
+(** Non-vacuity of the session-open theorems: the leaf of [w_state] has GPU
+    limit 1/2. A snapshot with one non-preemptible half-GPU pod in the leaf in
+    status Binding (bind request of the previous cycle in flight) plus one pod
+    in each of Pending, Gated, Releasing, Succeeded, Failed, Unknown, Pipelined,
+    Deleted: only the Binding pod is charged, the leaf and (non-preemptible)
+    its parent stand at 1/2 = the limit, and the next half-GPU job is refused
+    with OverLimit at the leaf. The same holds for that pod in every status of
+    the allocated class; in every other status nothing is charged and the job
+    is admitted. Request of both queues is 1 GPU: the Binding and the Pending pod. *)
+Theorem C08_snapshot_nonvacuous :
+  wf_forest (s_queues w_state) = true /\ fresh (s_queues w_state) /\
+  load_init 3 w_state (sn_pod 20 Binding :: sn_others) = Done sn_binding /\
+  map e_task (s_ledger sn_binding) = [20%positive] /\
+  charged false (s_queues sn_binding) (s_ledger sn_binding) 2 GPU == 1 # 2 /\
+  charged true (s_queues sn_binding) (s_ledger sn_binding) 1 GPU == 1 # 2 /\
+  rget (q_alloc w_leaf) GPU + (1 # 2) == rget (q_limit w_leaf) GPU /\
+  admit_job 3 (s_queues sn_binding) ok_job = Done (Refused (OverLimit 2)) /\
+  load_init 3 w_state sn_others = Done w_state /\
+  (forall st, allocated_status st = true ->
+     exists s, load_init 3 w_state (sn_pod 20 st :: sn_others) = Done s /\ map e_task (s_ledger s) = [20%positive] /\
+               admit_job 3 (s_queues s) ok_job = Done (Refused (OverLimit 2))) /\
+  (forall st, allocated_status st = false ->
+     load_init 3 w_state (sn_pod 20 st :: sn_others) = Done w_state /\
+     do_step 3 w_state (AdmitJob ok_job) = Done ok_after) /\
+  load_requests 3 (s_queues w_state) [] (sn_pod 20 Binding :: sn_others)
+    = Done [(1%positive, {| r_cpu := 0; r_mem := 0; r_gpu := 1 |}); (2%positive, {| r_cpu := 0; r_mem := 0; r_gpu := 1 |})].
+Proof. exact snapshot_nonvacuous. Qed.
+Print Assumptions C08_snapshot_nonvacuous.
